@@ -593,8 +593,9 @@ func (t *Target) gnmiUpdate(n *pb.Notification) (*ctree.Leaf, error) {
 			}
 		}
 		oldval.Update(n)
-		// Simulate event-driven for all non-atomic updates.
-		if !n.Atomic && value.Equal(old.Update[0].Val, n.Update[0].Val) && t.eventDriven {
+		// Simulate event-driven for all non-atomic updates. A leaf that replaces
+		// an atomic container is a change whatever the container's first value was.
+		if !n.Atomic && !old.Atomic && value.Equal(old.Update[0].Val, n.Update[0].Val) && t.eventDriven {
 			t.meta.AddInt(metadata.SuppressedCount, 1)
 			return nil, nil
 		}
